@@ -105,6 +105,36 @@ CHECKS.update({
         text='Generated programs rendered with old-style relational operators (random case/spacing) mixed with strings and comments containing the same spellings, and routines with dynamic UBOUND checks; original lines, fixed lines, re-lint reports and program output are recorded; TLC decides the three clauses.',
         note='On the unchanged tree the operator fixer raises (known finding), so most cases end in FixApplies; the remaining clauses are exercised by the UBOUND rule and by the selftest corruptions.'),
 })
+CHECKS.update({
+    'C02': dict(
+        technique='TLA+ clauses RoundTrip (text fixpoint, IR identity) model-checked on abstract line/IR sequences and evaluated by TLC on recorded write/read/write cycles of generated programs and repository sources',
+        text='t1 = fgen(parse(src)), t2 = fgen(parse(t1)) are compared line by line and the re-read IR (independent structural export of node kinds and expression trees) node by node by Trace_RoundTrip, which names the first difference; corpus: generated programs with all features and every repository Fortran source the FP frontend accepts without preprocessing.',
+        note='Sources needing cpp are skipped (counted). Two known findings (logical operand regrouping, dropped unit loop step) concern the IR clause only.'),
+    'C03': dict(
+        technique='TLA+ state machine SourceStatus (per-node status and text under Replace/Remove/Substitute edits; ValidImpliesOriginalText, unmodified = original) model-checked; recorded conservative outputs validated by Trace_SourceStatus, behaviour of edited programs by Trace_FMachine',
+        text='Unmodified units/files must be reproduced verbatim per unit; after local edits every node still marked valid must be emitted with its original text, and the conservative output of edited generated programs is compiled, run and validated against the reference machine on the edited program.',
+        note='Inline comments sharing a line with a statement are an explicit exemption. Several known findings (no conservative visit_Function, handlers missing for some kinds, over-invalidation).'),
+    'C04': dict(
+        technique='TLA+ line-wrapping contract LineWrap (Unwrap(lines) = Concat(items), width bound with the single-unbreakable-item exemption) model-checked; TLC-enumerated item vectors replayed into JoinableStringList and whole-program fgen output validated by Trace_LineWrap; gfortran line-truncation check',
+        text='Level 1: all item-length vectors of a small universe are built as real JoinableStringList objects and the produced lines (as character codes) validated. Level 2: generated programs with very long expressions, argument lists, declarations, literals and deep nesting under the default and IFS styles: every line <= 132 or exempt, token sequence equal to the unwrapped print of the same IR, gfortran -Werror=line-truncation accepts.',
+        note='Known findings: inline FORALL/WHERE wrapping, literals of 113-130 characters, very small widths of the component.'),
+    'C26': dict(
+        technique='Instrumented TLA+ reference machine FMachineLog (read/write/enter/exit event log) + TLA+ judgement DataflowJudge evaluated by TLC on the def/use/live sets recorded from Loki for generated routines x inputs',
+        text='For every execution window of every statement node of generated routines (loops incl. zero-trip, conditionals, SELECT CASE, WHERE, associates, calls to helpers with every intent incl. none): writes must be in defines, reads-before-write in uses, values from earlier execution in live. Pre-flight: the instrumented machine agrees with FMachine and with gfortran on the program output.',
+        note='Per array element granularity for kills; DO variables set by their own DO are exempt. Known findings listed in known_findings.json.'),
+    'C27': dict(
+        technique='Same instrumented machine; TLC computes the actual loop-carried and read-after-write variables from the event log and checks inclusion in loop_carried_dependencies / read_after_write_vars',
+        text='For every loop instance and inspection point of the generated routines the variables actually carried between iterations / written before and read after the point must be reported by the queries (one-directional).',
+        note='Known findings: may-definition kills, element granularity, candidates cleared in zero-trip loops / SELECT / WHERE, associate aliases.'),
+    'C35': dict(
+        technique='TLA+ reference machine FMachine (Trace_Transpile) predicts the output of the original Fortran; observed = harness-owned Fortran driver calling the gcc-built C kernel through the generated ISO-C wrapper; gfortran pre-flight',
+        text='Kernels of the transpilable subset are generated in pools (a clean core pool + one construct per other pool), transpiled with FortranCTransformation + FortranISOCWrapperTransformation, built with gcc/gfortran and run on dyadic inputs; TLC compares with Run(original, input).',
+        note='Reals dyadic and compared exactly. Non-termination detected by CPU limit; tool timeouts are inconclusive, never violations. Known findings per construct pool.'),
+    'C36': dict(
+        technique='Same reference machine; observed = the generated Python function executed on the same inputs',
+        text='As C35 for FortranPythonTransformation; integers and logicals exact, reals exact because all values are dyadic.',
+        note='"Equal up to the precision of the declared kinds" is checked as exact equality on dyadic values. Known findings per construct pool.'),
+})
 NOT_APPLICABLE = {p: 'check not built yet (work in progress; see DESIGN.md build order)' for p in ALL if p not in CHECKS}
 for e in ENGINES:
     e['serves_properties'] = sorted(CHECKS)
